@@ -1307,6 +1307,7 @@ class C21(Spec):
         ctx_in = _copy.deepcopy(ctx1)
         expect_ser = None
         defaults = {}
+        decoys = {}
         if fault in ("delete", "delete_default", "unused", "unused_list", "junk_list", "default_and_unused"):
             pairs = contexts_of(prog, ctx_in)
             if fault in ("delete", "delete_default"):
@@ -1325,6 +1326,11 @@ class C21(Spec):
                         defaults = {type(c): {o["t"]: False if o["op"] == "bool" else 0}}
                     else:
                         expect_ser = (KeyError, bs_exc.ListTargetExhaustedError)
+                        if case.get("decoys", True):
+                            # the default table holds a value for this target
+                            # name under every OTHER context type (e.g. the
+                            # enclosing context's): none of them may be used
+                            decoys = {T: {o["t"]: 0} for T in SD_TYPES if T is not type(c)}
             elif fault == "unused":
                 c, p = fr.choice(pairs)
 
@@ -1406,7 +1412,9 @@ class C21(Spec):
         wtr = BitstreamWriter(g)
         ser = None
         try:
-            with Serialiser(wtr, ctx_in, defaults) as ser:
+            table = dict(decoys)
+            table.update(defaults)
+            with Serialiser(wtr, ctx_in, table) as ser:
                 run_program(ser, prog)
             wtr.flush()
             sexc = None
